@@ -22,4 +22,12 @@ theorem C08_access_steps_generated (D : Desc) (s : St) (f : Fsm) (i : SvcIn) :
 (translator item T22) -/
 theorem C08_access_test_generated (c : CmdD) (a : Access) : varsAccessible c a = Gen.is_variables_access_possible c a := rfl
 
+/-- the counters this property's theorems keep as unbounded natural numbers (`var_num`, `index`, `data_size`) are declared
+`size_t` in `cat.h` — 64 bits on the target, so they cannot wrap on any buffer, table or line that exists; the widths
+are read from the struct declarations on every run (translator item T21) -/
+theorem C08_counters_unbounded :
+    Gen.width_cmd_var_num = 64 ∧
+    Gen.width_obj_index = 64 ∧
+    Gen.width_var_data_size = 64 := by decide
+
 end Cat
